@@ -192,6 +192,8 @@ def c14_case(draw, tier):
             return case
         if which == "slice_grouped" and not t.group:
             off["group_first"] = t.names()[0]
+        if which in ("slice_grouped", "join_grouped"):
+            off["hide_alias"] = draw(st.booleans())
         if which.startswith("join"):
             off["right"] = g.source(name="rj")
     hidden_group = any(c not in {cc for _, cc in t.visible} for c in t.group)
@@ -322,14 +324,23 @@ class C14(Check):
             return tbl >> pdt.rename({names[0]: names[1]})
         if which == "rename_unknown":
             return tbl >> pdt.rename({"zz_nope": "zz_other"})
+        def hide_and_alias(t2):
+            # the grouping survives deselecting the grouping column and a re-rooting alias()
+            if not off.get("hide_alias"):
+                return t2
+            vis_group = [t2._cache.uuid_to_name[u] for u in t2._cache.partition_by if u in t2._cache.uuid_to_name]
+            if vis_group and len(t2 >> pdt.columns()) >= 2:
+                t2 = t2 >> pdt.drop(vis_group[0])
+            return t2 >> pdt.alias()
+
         if which == "slice_grouped":
             t2 = tbl >> pdt.group_by(off["group_first"]) if "group_first" in off else tbl
-            return t2 >> pdt.slice_head(2)
+            return hide_and_alias(t2) >> pdt.slice_head(2)
         right = self._right(off, b)
         if which == "join_grouped":
             names = tbl >> pdt.columns()
             lt = tbl if tbl._cache.partition_by else tbl >> pdt.group_by(names[0])
-            return lt >> pdt.join(right, [], "inner", suffix="_zz")
+            return hide_and_alias(lt) >> pdt.join(right, [], "inner", suffix="_zz")
         if which == "join_same_origin":
             return tbl >> pdt.join(tbl >> pdt.filter(True), [], "inner", suffix="_zz")
         if which == "join_backends":
